@@ -328,17 +328,58 @@ func TestC02(t *testing.T) {
 						ls = append(ls, rapid.SampledFrom(pool).Draw(rt, "lab"))
 					}
 					src := head + "  a:\n    runs-on: [" + strings.Join(ls, ", ") + "]\n    steps:\n      - run: echo\n"
+					if rapid.Bool().Draw(rt, "viamatrix") {
+						// some labels come from a matrix row written before or after runs-on, at a smaller or
+						// larger column than the labels of the list
+						ls[rapid.IntRange(0, n-1).Draw(rt, "mat")] = "'${{ matrix.os }}'"
+						var ms []string
+						for i := rapid.IntRange(1, 3).Draw(rt, "nmat"); i > 0; i-- {
+							ms = append(ms, rapid.SampledFrom(pool).Draw(rt, "mlab"))
+						}
+						runsOn := "    runs-on: [" + strings.Join(ls, ", ") + "]\n"
+						if rapid.Bool().Draw(rt, "blocklist") {
+							runsOn = "    runs-on:\n"
+							for _, l := range ls {
+								runsOn += "                - " + l + "\n"
+							}
+						}
+						strat := "    strategy:\n      matrix:\n        os: [" + strings.Join(ms, ", ") + "]\n"
+						if rapid.Bool().Draw(rt, "stratfirst") {
+							src = head + "  a:\n" + strat + runsOn + "    steps:\n      - run: echo\n"
+						} else {
+							src = head + "  a:\n" + runsOn + strat + "    steps:\n      - run: echo\n"
+						}
+					}
 					run(rt, oneFile("runner-label-conflicts", src), true)
 				case 4: // several cycles
 					nc := rapid.IntRange(2, 3).Draw(rt, "ncyc")
-					src := head
+					type jn struct{ id, needs int }
+					var js []jn
 					id := 0
 					for c := 0; c < nc; c++ {
 						l := rapid.IntRange(1, 3).Draw(rt, "len")
 						for k := 0; k < l; k++ {
-							src += fmt.Sprintf("  j%d:\n    needs: [j%d]\n    runs-on: ubuntu-latest\n    steps:\n      - run: echo\n", id+k, id+(k+1)%l)
+							js = append(js, jn{id + k, id + (k+1)%l})
 						}
 						id += l
+					}
+					src := head
+					if rapid.IntRange(0, 2).Draw(rt, "flowjobs") == 0 {
+						// the jobs as one flow mapping spread over lines with arbitrary indentation (a job on a
+						// later line may start at a smaller column than one on an earlier line)
+						src = strings.TrimSuffix(head, "jobs:\n") + "jobs: {\n"
+						for i, j := range js {
+							sep := ","
+							if i == len(js)-1 {
+								sep = ""
+							}
+							src += fmt.Sprintf("%sj%d: {needs: [j%d], runs-on: ubuntu-latest, steps: [{run: echo}]}%s\n", strings.Repeat(" ", rapid.IntRange(1, 9).Draw(rt, "flowindent")), j.id, j.needs, sep)
+						}
+						src += " }\n"
+					} else {
+						for _, j := range js {
+							src += fmt.Sprintf("  j%d:\n    needs: [j%d]\n    runs-on: ubuntu-latest\n    steps:\n      - run: echo\n", j.id, j.needs)
+						}
 					}
 					run(rt, oneFile("several-needs-cycles", src), true)
 				case 5: // broken local action used by several jobs
